@@ -173,6 +173,8 @@ class Write(Harness):
                         hi = 10 ** 4 if n_int <= 2 else (1200 if n_int <= 4 else 120)
                         sk["int_range"] = [-hi, hi] if tab == "bed3" and n_int <= 4 else [0, hi]
                     out.append(sk)
+        for tab, rows in (("bed3", T["bed3"][3]), ("vcf", T["vcf"][1]), ("bed6", T["bed6"][1])):
+            out.append(dict(table=tab, rows=rows, cuts=[], lazy_concat=True))
         # append mode through bnp.open: a first piece written with mode 'w', the rest with mode 'a', to a plain and to a gzip target
         # (formats with and without a header); the result must be what one write gives
         for tab, rows in (("bed3", T["bed3"][2]), ("vcf", T["vcf"][1]), ("fastq", T["fastq"][1])):
@@ -252,6 +254,13 @@ class Write(Harness):
         elif skel["cuts"]:
             res["split"] = write(partition(list(range(n)), skel["cuts"]))
         res["again"] = write([list(range(n))])      # the same table written once more (writing must not change the table)
+        if skel.get("lazy_concat"):
+            # composition through a file: what was written is read back lazily, the whole table and a selection of it are
+            # concatenated and written in one call -- the file holds the table's records followed by the selected ones
+            lz = NpDataclassReader(NumpyFileReader(ctx.file(single), B), lazy=True).read()
+            f = ctx.wfile()
+            NpBufferedWriter(f, B).write(ctx.np.concatenate([lz, lz[1:]]))
+            res["lazy_concat"] = ctx.file_bytes(f)
         # read the written bytes back with the library's reader (composition on the symbolic output)
         if n:
             back = NpDataclassReader(NumpyFileReader(ctx.file(single), B), lazy=False).read()
@@ -355,6 +364,13 @@ class Write(Harness):
                     conj.append(canonical_text_post(ec[1] + ec[2], len(gc), gc))
         return True
 
+    def _concat_expected(self, skel, single):
+        """the bytes of one write, followed by its record lines from the second record on (lines end with the concrete byte 10)"""
+        n_header = 2 if skel["table"] == "vcf" else 0
+        ends = [i for i, b in enumerate(single) if isinstance(b, int) and b == 10]
+        start_second = ends[n_header] + 1          # first byte after the first record's line
+        return list(single) + list(single[start_second:])
+
     def post(self, skel, x, out):
         if isinstance(out, Exc):
             return False
@@ -366,6 +382,11 @@ class Write(Harness):
                 if len(out[key]) != len(out["single"]):
                     return False
                 conj += [TI(a) == TI(b) for a, b in zip(out[key], out["single"])]
+        if "lazy_concat" in out:
+            exp = self._concat_expected(skel, out["single"])
+            if len(out["lazy_concat"]) != len(exp):
+                return False
+            conj += [TI(a) == TI(b) for a, b in zip(out["lazy_concat"], exp)]
         if "back" in out:
             n = len(skel["rows"])
             if out["n_back"] != n:
@@ -408,6 +429,9 @@ class Write(Harness):
             return f"{skel['table']} table written as {bytes(cout['single'])!r}, canonical serialisation is {bytes(exp)!r}"
         if "split" in cout and cout["split"] != exp:
             return f"{skel['table']} table written in pieces at {skel['cuts']}: {bytes(cout['split'])!r}, one write gives {bytes(exp)!r}"
+        if "lazy_concat" in cout and cout["lazy_concat"] != self._concat_expected(skel, exp):
+            return (f"{skel['table']} table written, read back lazily, np.concatenate([table, table[1:]]) written: {bytes(cout['lazy_concat'])!r}, "
+                    f"expected {bytes(self._concat_expected(skel, exp))!r}")
         if cout.get("again", exp) != exp:
             return f"{skel['table']} table written once more after the first writes: {bytes(cout['again'])!r}, the first write gave {bytes(exp)!r}"
         if "back" in cout:
